@@ -404,9 +404,22 @@ def op_sequences(pm: ProgramModel, ctx: Ctx, mb: ModelBuilder, ops: list[Any], p
         return fm, h
 
     def apply_edit(fm: AObj, h: dict[str, Any], edit: str) -> None:
-        if edit == "grow":
+        if edit in ("grow", "member"):
             g3 = mb.feature("G3", parent=h["a"])
-            h["grp"]._f["children"].append(g3)                 # another member of the existing group
+            add = pm.method(pm.cls("Relation"), "add_child") if pm.has_cls("Relation") else None
+            if add is not None:
+                try:
+                    mb._it.call(add, [h["grp"], g3])            # another member of the existing group, through the API
+                except (AbsRaise, AbsMutation, AnalysisError):
+                    h["grp"]._f["children"].append(g3)
+                if not any(c is g3 for c in h["grp"]._f["children"]):
+                    h["grp"]._f["children"].append(g3)
+                g3._f["parent"] = h["a"]
+            else:
+                h["grp"]._f["children"].append(g3)
+            if edit == "member":
+                return                                         # nothing but Relation.add_child on an attached relation
+            h["grp"]._f["children"].append(mb.feature("G4", parent=h["a"]))   # and one appended to the list directly
             m2 = mb.feature("M2")
             mb.relation(h["a"], [m2], 0, 1)                     # a new optional child, attached with add_relation
             mb.relation(m2, [mb.feature("M3")], 1, 1)
@@ -458,7 +471,7 @@ def op_sequences(pm: ProgramModel, ctx: Ctx, mb: ModelBuilder, ops: list[Any], p
         if ci.name in MUTATING:
             continue
         where = loc(ci.unit.path, ci.node)
-        for edit in ("grow", "new-root"):
+        for edit in ("grow", "new-root", "member"):
             key = f"execute-edit-execute:{edit}:{ci.name}"
             try:
                 reset_global_state()
